@@ -1075,7 +1075,10 @@ class FileDatastore(GenericBaseDatastore[StoredFileInfo]):
                         f"Unexpectedly learned that {srcUri} is not within datastore {self.root}"
                     )
                 if pathInStore:
-                    tgtLocation = self.locationFactory.fromPath(pathInStore, trusted_path=True)
+                    # relative_to() compares the paths as written, so a URI
+                    # spelled "<root>/../elsewhere" gets here too: let Location
+                    # check that the path really is inside the datastore.
+                    tgtLocation = self.locationFactory.fromPath(pathInStore, trusted_path=False)
                 elif transfer == "split":
                     # Outside the datastore but treat that as a direct ingest
                     # instead.
@@ -2234,7 +2237,8 @@ class FileDatastore(GenericBaseDatastore[StoredFileInfo]):
                     raise RuntimeError(
                         f"Unexpectedly learned that {zip_path} is not within datastore {self.root}"
                     )
-                tgtLocation = self.locationFactory.fromPath(pathInStore, trusted_path=True)
+                # As for ordinary files: the comparison above is textual.
+                tgtLocation = self.locationFactory.fromPath(pathInStore, trusted_path=False)
         elif transfer == "direct":
             # Reference in original location.
             tgtLocation = None
